@@ -16,7 +16,7 @@ use crate::rng::hash_str;
 use crate::Ctx;
 
 /// (kind, loop body creating garbage of that kind; `i` is the loop counter)
-pub const KINDS: [(&str, &str); 14] = [
+pub const KINDS: [(&str, &str); 15] = [
     ("pairs", "(cons i (list i i))"),
     ("vectors", "(vector i (make-vector 6 i))"),
     ("strings", "(string-append \"ab\" (number->string i) (make-string 3 #\\z))"),
@@ -28,6 +28,7 @@ pub const KINDS: [(&str, &str); 14] = [
     ("lambdas-compiled-by-eval", "((eval (list 'lambda '(q) (list '+ 'q i))) 1)"),
     ("interned-symbols", "(string->symbol (string-append \"fresh-\" (number->string i)))"),
     ("quoted-fresh-symbols", "(eval (list 'quote (string->symbol (string-append \"qf-\" (number->string i)))))"),
+    ("lambdas-with-fresh-parameter-names-compiled-by-eval", "((eval (list 'lambda (list (string->symbol (string-append \"v\" (number->string i)))) (string->symbol (string-append \"v\" (number->string i))))) i)"),
     ("bignums", "(* 123456789012345678901234567890 (+ i 1))"),
     ("promises", "(force (delay (list i)))"),
     ("mixed", "(list (vector i) (lambda () i) (number->string i) (call/cc (lambda (k) k)) (string->symbol (string-append \"m\" (number->string (remainder i 50)))))"),
@@ -59,6 +60,13 @@ const ROLLING: [(&str, &str); 5] = [
 
 /// The same garbage loops, but the evaluation is driven in slices (prepare_eval + run_count(b)), the
 /// way marwood-wasm drives it: memory must be bounded for every budget.
+/// Computations whose length grows with N but whose live set does not: (name, program with {N}, N small).
+const CHAINS: [(&str, &str, u64); 3] = [
+    ("chain:delay-force", "(define (lc n) (delay-force (if (= n 0) (delay 0) (lc (- n 1))))) (force (lc {N}))", 2000),
+    ("chain:stream-walk", "(define (ints n) (cons n (delay (ints (+ n 1))))) (define (walk s k) (if (= k 0) (car s) (walk (force (cdr s)) (- k 1)))) (walk (ints 0) {N})", 2000),
+    ("chain:mutual-tail-calls-with-allocation", "(define (ping n acc) (if (= n 0) (length acc) (pong (- n 1) (list n)))) (define (pong n acc) (ping n (cons n '()))) (ping {N} '())", 5000),
+];
+
 const SLICED: [(&str, &str, usize); 4] = [
     ("sliced-1000:pairs", "(cons i (list i i))", 1000),
     ("sliced-100:closures-and-environments", "((lambda (x) (lambda () (+ x i))) i)", 100),
@@ -104,6 +112,30 @@ pub fn measure_loop_full(body: &str, live: usize, n: u64, rolling: bool, slice: 
         };
         match r {
             Ok(Ok(_)) => {}
+            Ok(Err(e)) => return Err(format!("error {}", e)),
+            Err(p) => return Err(format!("panic {}", p.message)),
+        }
+    }
+    let s0 = m.vm.verif_stats();
+    m.vm.verif_force_gc();
+    let s1 = m.vm.verif_stats();
+    let host = alloc::live_bytes();
+    let symbols = m.vm.verif_heap().verif_symbol_table().len();
+    drop(m);
+    let after = alloc::live_bytes() as isize - base;
+    Ok(Usage { heap_capacity: s0.heap_capacity, heap_used_after_gc: s1.heap_used, stack_capacity: s0.stack_capacity, host_bytes: host, host_after_drop: after, symbols })
+}
+
+/// a whole program (several forms) in a fresh VM
+pub fn measure_program(prog: &str, live: usize) -> Result<Usage, String> {
+    let base = alloc::live_bytes() as isize;
+    let mut m = MwVm::new();
+    for f in parse_forms(&setup(live)) {
+        run_form(&mut m, &f);
+    }
+    for f in parse_forms(prog) {
+        match crate::mw::catch(|| m.vm.eval(&f).map(|_| ())) {
+            Ok(Ok(())) => {}
             Ok(Err(e)) => return Err(format!("error {}", e)),
             Err(p) => return Err(format!("panic {}", p.message)),
         }
@@ -195,7 +227,7 @@ pub fn run(ctx: &Ctx, rep: &mut Report) {
     let ns: Vec<u64> = if ctx.quick() { vec![10_000] } else { vec![10_000, 100_000] };
     let lives = [0usize, 10, 1000];
     let mut cases: Vec<(usize, usize, u64)> = vec![];
-    for k in 0..=KINDS.len() + ROLLING.len() + SLICED.len() {
+    for k in 0..=KINDS.len() + ROLLING.len() + SLICED.len() + CHAINS.len() {
         for l in lives {
             for n in &ns {
                 cases.push((k, l, *n));
@@ -212,7 +244,10 @@ pub fn run(ctx: &Ctx, rep: &mut Report) {
             }
         }
         rep.evaluations += 1;
-        let (kind, small, large) = if *k > KINDS.len() + ROLLING.len() {
+        let (kind, small, large) = if *k > KINDS.len() + ROLLING.len() + SLICED.len() {
+            let (name, prog, n0) = CHAINS[*k - KINDS.len() - ROLLING.len() - SLICED.len() - 1];
+            (name, measure_program(&prog.replace("{N}", &n0.to_string()), *live), measure_program(&prog.replace("{N}", &(n0 * 10).to_string()), *live))
+        } else if *k > KINDS.len() + ROLLING.len() {
             let (name, body, b) = SLICED[*k - KINDS.len() - ROLLING.len() - 1];
             (name, measure_loop_full(body, *live, *n / 2, false, Some(b)), measure_loop_full(body, *live, *n * 5, false, Some(b)))
         } else if *k > KINDS.len() {
